@@ -1,0 +1,54 @@
+//! Verification hooks. The whole module is compiled only under `--cfg typstyle_verif`;
+//! with the flag off nothing of it exists.
+//!
+//! * `visit(entry, span)`: a per-thread log of calls to the conversion entry points,
+//!   used to check that every syntax node is converted a bounded number of times.
+//! * `phase(name)`: called between the phases of one formatting call; a test can install
+//!   a callback to observe or to gate the phases (schedule replay).
+
+use std::{
+    cell::RefCell,
+    sync::{Arc, RwLock},
+};
+
+use typst_syntax::Span;
+
+thread_local! {
+    static VISITS: RefCell<Option<Vec<(&'static str, u64)>>> = const { RefCell::new(None) };
+}
+
+/// Start logging visits on this thread.
+pub fn start_visit_log() {
+    VISITS.with(|v| *v.borrow_mut() = Some(Vec::new()));
+}
+
+/// Stop logging and return the visits logged on this thread since `start_visit_log`.
+pub fn take_visit_log() -> Vec<(&'static str, u64)> {
+    VISITS.with(|v| v.borrow_mut().take().unwrap_or_default())
+}
+
+#[inline]
+pub(crate) fn visit(entry: &'static str, span: Span) {
+    VISITS.with(|v| {
+        if let Some(log) = v.borrow_mut().as_mut() {
+            log.push((entry, span.into_raw().get()));
+        }
+    });
+}
+
+type PhaseHook = Arc<dyn Fn(&'static str) + Send + Sync>;
+
+static PHASE_HOOK: RwLock<Option<PhaseHook>> = RwLock::new(None);
+
+/// Install (or remove) the callback invoked at every phase boundary of a formatting call.
+pub fn set_phase_hook(hook: Option<PhaseHook>) {
+    *PHASE_HOOK.write().unwrap() = hook;
+}
+
+#[inline]
+pub(crate) fn phase(name: &'static str) {
+    let hook = PHASE_HOOK.read().unwrap().clone();
+    if let Some(hook) = hook {
+        hook(name);
+    }
+}
